@@ -19,6 +19,13 @@ namespace Search
 
 variable {σ π : Type}
 
+/-- This development needs no invariant of the persistent state and no component law: where it uses
+    the frame lemmas of `abort` / `incrementNodes` (stated with `Mono`, which mentions `PsInv`) it does
+    so with the trivial invariant.  No statement of the development mentions it. -/
+@[instance_reducible] def trivialPsInv (σ : Type) : PsInv σ := ⟨fun _ => True⟩
+
+attribute [local instance] trivialPsInv
+
 /-- `L1`: no hard budget; `L2`: hard budget `N`; no stop channel in either. -/
 structure SoftHard (L1 L2 : Limits) (N : Int) : Prop where
   nodes1 : L1.nodes = -1
@@ -79,8 +86,16 @@ theorem qAfter_eq (c : Comp σ π) {L1 L2 : Limits} {N : Int} (h : SoftHard L1 L
   simp only [qAfter, h.abort_eq]
 
 theorem qAfter_nm (c : Comp σ π) (L : Limits) (beta : Score) (ply : Int) (m : Move) (r : Board.Reverse)
-    (l : QLoop) (v : Score) (s : St σ) : NM s (qAfter c L beta ply m r l v s).2 :=
-  (qAfter_spec c L beta ply m r l v s).1.nm
+    (l : QLoop) (v : Score) (s : St σ) : NM s (qAfter c L beta ply m r l v s).2 := by
+  simp only [qAfter]
+  have hf : NM s (abort L (s.setBoard (s.board.undoMove m r))).2 :=
+    (abort_frame L (s.setBoard (s.board.undoMove m r))).mono.nm
+  generalize abort L (s.setBoard (s.board.undoMove m r)) = as at hf ⊢
+  split
+  · exact hf
+  · split
+    · exact hf
+    · exact hf
 
 theorem qLoop_sim (c : Comp σ π) {L1 L2 : Limits} {N : Int} (h : SoftHard L1 L2 N)
     (ch1 ch2 : Score → Score → Int → St σ → Score × St σ) (hc : QSim N ch1 ch2) (beta sp : Score) (ply : Int) :
